@@ -350,6 +350,8 @@ def make_classifier(name, rs, opt=0, n_jobs=None):
                 ("m1", second, [1])]
         if opt == 2:  # an entry that is skipped at fit
             ests.append(("m2", "drop", [0]))
+        if opt == 3:  # the second column is handled by an estimator given as remainder
+            return ColumnEnsembleClassifier(estimators=ests[:1], remainder=second)
         return ColumnEnsembleClassifier(estimators=ests)
     raise KeyError(name)
 
